@@ -12,13 +12,13 @@ TRUST = ("Trusted base: the simulator itself (SimParallel as stand-in for joblib
 
 P = {
  "C01": ("exploration", "reference model (RefContextFree) checked after every operation of seeded histories; sampler replay on cloned generators; rejected calls, restarts and thread schedules injected",
-         "After every operation of a generated history (fit/partial_fit with 0-24 rows and omitted arms, add/remove/re-add arm, queries; rejected calls and pickle/deepcopy restarts mixed in; n_jobs>1 training under seeded thread schedules) the parameters the bandit holds equal an independent per-arm reference model, and every predict_expectations/predict result equals the documented sampler replayed on a clone of the generator with the reference's parameters.",
+         "After every operation of a generated history (fit/partial_fit with 0-24 rows and omitted arms, add/remove/re-add arm, queries; rejected calls and pickle/deepcopy restarts mixed in; n_jobs>1 training under seeded thread schedules; zero/negative/large arm labels; in some runs a batch of 300-600 rewards delivered as a uint8/int8 array) the parameters the bandit holds equal an independent per-arm reference model, and every predict_expectations/predict result equals the documented sampler replayed on a clone of the generator with the reference's parameters.",
          "The sampler replay encodes the documented order of draws (changing it changes every pinned constant of the repository's tests). Popularity with all-zero means: only 'non-negative, sums to one' is required."),
  "C02": ("exploration", "reference model (RefRidge: numpy.linalg.solve on the raw per-arm history) over seeded history splits; LinTS draw replay with oracle mean/covariance",
-         "Every query of a generated fit/partial_fit/arm-change history (d in 1..4 incl. d=1 with m>1, lambda in {0.1..10}, scale=True with a single fit, restarts) is compared with x.beta (+ alpha*sqrt(x'A^-1x)) computed from scratch, LinTS by centring at alpha=1e-9 and by replaying the multivariate normal draw on copies of the generators with the oracle's mean and covariance.",
+         "Every query of a generated fit/partial_fit/arm-change history (d in 1..4 incl. d=1 with m>1, lambda in {0.1..10}, scale=True with a single fit, restarts; in a fifth of the runs the caller re-uses one pre-allocated ndarray/list/DataFrame per argument and overwrites it in place for the next call) is compared with x.beta (+ alpha*sqrt(x'A^-1x)) computed from scratch, LinTS by centring at alpha=1e-9 and by replaying the multivariate normal draw on copies of the generators with the oracle's mean and covariance.",
          "The closed-form arithmetic itself is a function of the input; the simulated part is the history split, arm bookkeeping and restarts. Known finding KF-C02-ainv-lambda-unobserved-arm is attributed only when the oracle recomputed with covariance lambda*I for the never-observed arms reproduces the observation."),
  "C03": ("exploration", "reference model (exact integer distances, all valid k-nearest tie selections) + fresh real learning-policy bandit per query row; queries under seeded worker schedules and partitions",
-         "For Radius/KNearest over every context-free and linear policy, integer-grid contexts and four exact metrics, radii placed ON realised distances, k up to the history size, histories fit+partial_fit* with restarts: each query row's result equals a fresh learning-policy bandit trained on exactly the oracle-selected rows with the per-row generator; empty neighbourhoods give all-NaN expectations and an arm with non-zero probability.",
+         "For Radius/KNearest over every context-free and linear policy, integer-grid contexts and four exact metrics, radii placed ON realised distances, k up to the history size, histories fit+partial_fit* with restarts and add_arm/remove_arm between the chunks (rows of a removed arm stay stored observations): each query row's result equals a fresh learning-policy bandit trained on exactly the oracle-selected rows with the per-row generator; empty neighbourhoods give all-NaN expectations and an arm with non-zero probability.",
          "Per-row seeding (seeds drawn from the bandit generator, one generator per row) is mirrored by the oracle; euclidean boundary checks depend on a calibration guard (cdist == correctly rounded sqrt) evaluated at start-up."),
  "C04": ("exploration", "deterministic simulation of interference schedules: other bandits constructed/trained/queried between any two steps; twins in lock-step and skewed; further interpreter processes with other hash seeds",
          "Output sequences of a scripted bandit are compared alone vs. with an interference script (other seeds, default-constructed and shared policy tuples, especially between construction and first fit), vs. twins driven in lock-step/skewed order, vs. executions in two other interpreter processes (PYTHONHASHSEED=1 and random), with data that makes the trees' random_state observable.",
@@ -26,44 +26,44 @@ P = {
  "C05": ("exploration", "seeded scheduler over thread interleavings / process batching / partitions; replica-vs-primary refinement; per-row decomposition; exact-cover monitor",
          "A replica with drawn n_jobs/backend/cores executes every operation under a per-operation seeded scheduler (thread completion order and LINE/INSTRUCTION-level interleavings of the shared-memory fit/insert tasks, process batching onto pickled copies, arbitrary contiguous partitions) and must equal the n_jobs=1 primary on every output and on the learned model; plus per-row decomposition on fresh copies and an exact-cover monitor on the real partition function (incl. a complete sweep n<=64 x n_jobs in -3..66).",
          "Known finding KF-C05-treebandit-shared-rng covers differing VALUES for TreeBandit+TS/EG(eps>0) only; structure and models stay checked."),
- "C06": ("exploration", "F-CHUNK: seeded chunkings of the training stream; fresh batch-trained replica after every chunk; stream sync; parameter-view and observation equality",
-         "After every chunk of a drawn chunking (sizes>=1, chunks omitting arms, first chunk by fit or partial_fit) a fresh replica is fit once on the prefix, random-stream positions are copied across, and parameter views and predict/expect/predict observations must coincide (== in the exact arithmetic regime, 1e-9/1e-7 relative otherwise). TreeBandit and scale=True excluded as the property says.",
+ "C06": ("exploration", "F-CHUNK: seeded chunkings of the training stream, the chunked side also with n_jobs>1 under seeded worker schedules; fresh batch-trained replica after every chunk; stream sync; parameter-view and observation equality",
+         "After every chunk of a drawn chunking (sizes>=1, chunks omitting arms, first chunk by fit or partial_fit; in 30% of the runs the chunked bandit trains with n_jobs>1 under a per-chunk seeded thread/process schedule) a fresh n_jobs=1 replica is fit once on the prefix, random-stream positions are copied across, and parameter views and predict/expect/predict observations must coincide (== in the exact arithmetic regime, 1e-9/1e-7 relative otherwise). TreeBandit and scale=True excluded as the property says.",
          "Exact regime = integer-grid contexts and dyadic rewards so that bit-for-bit equality is a sound expectation."),
- "C07": ("exploration", "F-REFIT at arbitrary history points; fresh replica with the current arm list; stream sync; whole continuation compared",
-         "Every later fit of a generated history (after partial_fit, arm changes, warm_start, queries; new data smaller/larger/with another column count) is mirrored on a freshly constructed bandit that gets the primary's stream position; parameter views, cold_arms, observations and the whole continuation must coincide.",
+ "C07": ("exploration", "F-REFIT at arbitrary history points (also on the same contexts with other outcomes, also with n_jobs>1 under seeded worker schedules); fresh replica with the current arm list; stream sync; whole continuation compared",
+         "Every later fit of a generated history (after partial_fit, arm changes, warm_start, queries; new data smaller/larger/with another column count, or the SAME contexts with other decisions and rewards; in 30% of the runs the refitted bandit trains with n_jobs>1 under seeded schedules) is mirrored on a freshly constructed bandit that gets the primary's stream position; parameter views, cold_arms, observations and the whole continuation must coincide.",
          "Parameter views deliberately exclude unobservable internals (template policy statistics inside Radius/KNearest/LSH/TreeBandit, empty hash buckets)."),
  "C08": ("exploration", "arm-set/shape invariants checked after EVERY step of seeded histories, queries under seeded schedules/partitions, restarts injected",
-         "A trivial model of the arm list is maintained through add/remove/fit/partial_fit/warm_start histories (arm changes before the first fit included, all label types, all n_jobs/backends); a sibling bandit built from the SAME arms list object changes its own arms at drawn points; after every step the bandit is queried with m=1, m>1 and without contexts: predict in arms, expectation keys == arms in order, result length == m.",
+         "A trivial model of the arm list is maintained through add/remove/fit/partial_fit/warm_start histories (arm changes before the first fit included, all label types, all n_jobs/backends); a sibling bandit built from the SAME arms list object changes its own arms at drawn points; after every step the bandit is queried with m=1, m>1 and without contexts: predict in arms, expectation keys == arms in order, result length == m, and for policies with deterministic expectations the i-th result of a multi-row call equals the answer to the i-th row asked alone on a copy (row order).",
          "no_nhood_prob_of_arm is None whenever arm changes are generated (a fixed-length probability list against a changed arm count is a caller inconsistency)."),
  "C09": ("exploration", "two deep copies per query point under the same schedule seed; first-arg-max relation; tie-prone data regimes",
-         "At every query point of a generated history two deep copies answer predict and predict_expectations under the same per-operation schedule seed; per row predict must be the first arm attaining the maximum (NaN rows: predict in arms). TreeBandit+EpsilonGreedy(eps>0) excluded as stated.",
+         "At every query point of a generated history (training, arm changes, warm_start) two deep copies answer predict and predict_expectations under the same per-operation schedule seed; per row predict must be the first arm attaining the maximum (NaN rows: predict in arms). TreeBandit+EpsilonGreedy(eps>0) excluded as stated.",
          ""),
  "C10": ("exploration", "queried primary vs never-queried deep copy; queries under seeded thread/process schedules, random partitions and injected worker failures; stream sync; continuation equality",
          "The primary answers a drawn number of queries under seeded schedules (thread mode shares self between workers), random partitions and injected prediction-worker failures; then all stream positions are copied to the unqueried copy and parameter views plus a common continuation must coincide exactly.",
          "Failures are injected into prediction workers only (a failed query is still a query); training-worker failures are deliberately not injected (no property promises atomicity there)."),
  "C11": ("exploration", "reference model (sign patterns from the bandit's own planes) + fresh learning-policy bandit; scale law; hashing/insert tasks under seeded schedules and partitions",
-         "For drawn n_dimensions/n_tables/d and histories fit+partial_fit* with restarts, each query row (stored rows, positive multiples, the zero vector, random rows) must return what a fresh learning-policy bandit trained on exactly the oracle collision set returns; expect(c*X)==expect(X) for context-free policies; hashing and bucket inserts run under seeded process/thread schedules.",
+         "For drawn n_dimensions (1..6, in a tenth of the runs 31..40)/n_tables/d and histories fit+partial_fit* with restarts, each query row (stored rows, positive multiples, the zero vector, random rows) must return what a fresh learning-policy bandit trained on exactly the oracle collision set returns; expect(c*X)==expect(X) for context-free policies; hashing and bucket inserts run under seeded process/thread schedules.",
          "Queries whose projection is within 1e-9*|x||p| of zero (not the zero vector) are indeterminate and skipped (counted)."),
  "C12": ("exploration", "reference model over cells read from the fitted k-means/trees; fresh learning-policy bandit (Clusters), leaf statistic with sampler replay (TreeBandit)",
-         "Clusters: each query row equals a fresh learning-policy bandit trained on exactly the stored rows in the query's k-means cell (LinTS: distribution parameters beta/A_inv). TreeBandit: per arm the statistic over exactly that arm's rewards in the query's leaf (mean, UCB1 with N=n=leaf count, Beta by sampler replay); unobserved arms keep 0. Histories with partial_fit, arm changes, restarts.",
+         "Clusters: each query row equals a fresh learning-policy bandit trained on exactly the stored rows in the query's k-means cell (LinTS: distribution parameters beta/A_inv). TreeBandit: per arm the statistic over exactly that arm's rewards in the query's leaf (mean, UCB1 with N=n=leaf count, Beta by sampler replay); unobserved arms keep 0; after every TreeBandit query further rows placed ON a split threshold of the fitted trees and one float64 ulp above it are asked on a copy. Histories with partial_fit, arm changes, restarts.",
          "The fitted scikit-learn objects are read from the implementation: the property is about conditioning on the cell, not about how cells are learnt. TreeBandit+TS with binarizer is routed to C14."),
  "C13": ("exploration", "relations on deep copies (unchanged trained arms, nearest trained source within the documented threshold, monotone in quantile, idempotent under duplicated delivery, cold_arms model) over seeded histories with F-DUP and F-RESTART",
          "Every warm_start of a generated history is delivered twice (optionally across a restart) and compared with another quantile on a deep copy: trained/warm arms untouched, each newly warm arm equals exactly a trained arm at minimal cosine distance within the quantile threshold, warm set monotone in the quantile, repetition changes nothing, cold_arms follows a trivial model after every operation, raising calls change nothing.",
          "Per-arm state excludes soft-max shares (they legitimately move when another arm's mean appears)."),
  "C14": ("exploration", "replica without binarizer fed pre-converted rewards (exactly-once check); non-idempotent binarizers; known-finding discriminator",
-         "ThompsonSampling with a binarizer, alone and under every neighbourhood policy, over histories with fit/partial_fit/queries/add_arm(arm, new_binarizer), including bandits built WITHOUT a binarizer that get their first one from add_arm: a replica without binarizer fed binarizer(decision,reward) must return exactly the same from the same seed. Binarizers are not idempotent on {0,1}, so double application is visible.",
+         "ThompsonSampling with a binarizer, alone and under every neighbourhood policy, over histories with fit/partial_fit/queries/add_arm(arm, new_binarizer), including bandits built WITHOUT a binarizer that get their first one from add_arm: a replica without binarizer fed binarizer(decision,reward) must return exactly the same from the same seed. Binarizers are not idempotent on {0,1}, so double application is visible. In 30% of the runs both bandits have n_jobs>1 and the one with the binarizer trains under seeded worker schedules (the binarizer is called from the workers).",
          "KF-C14-treebandit-leaf-binarized-twice is attributed only if converting the replica's stored leaf rewards a second time reproduces the observation exactly."),
  "C15": ("exploration", "Simulator world: several bandits in one Simulator, chunk-budget knob (F-KNOB), seeded schedule/partitions inside mabwiser.simulator; reference driver over the public API",
-         "One Simulator with 1-4 bandits (different metrics together, different n_jobs), offline/online, drawn batch size, is_quick, chunk budget 1..|test| through a seam, all workers under one seeded schedule: reported predictions (and expectations of deterministic policies) must equal deep copies of the original bandits driven through MAB.fit/predict/predict_expectations/partial_fit with the independently computed split; randomised policies may match either protocol variant.",
+         "One Simulator with 1-4 bandits (different metrics together, different n_jobs, ThompsonSampling with and without binarizer), offline/online, drawn batch size, is_quick, chunk budget 1..|test| through a seam, all workers under one seeded schedule: reported predictions (and expectations of deterministic policies) must equal deep copies of the original bandits driven through MAB.fit/predict/predict_expectations/partial_fit with the independently computed split; randomised policies may match either protocol variant.",
          "Known findings: online chunk budget < batch size; non-integral float arms (confusion_matrix); TreeBandit TS/EG(eps>0) with n_jobs!=1 (schedule dependent, see C05). The Simulator's {} for an empty neighbourhood is treated as the API's all-NaN dict."),
  "C16": ("exploration", "conservation / exactly-once laws recomputed independently on the simulated Simulator runs (chunk-budget knob, seeded schedules and partitions)",
-         "On the same simulated runs as C15: test indices and complement partition the rows (last rows when ordered, equal to the documented split), one prediction per test row, per-arm statistics equal direct recomputation and train+test=total, the default evaluation recomputed independently (incl. neighbourhood statistics) equals the reported one per batch and in total, counts sum to |test|, min<=mean<=max.",
+         "On the same simulated runs as C15: test indices and complement partition the rows (last rows when ordered, equal to the documented split), one prediction per test row, per-arm statistics equal direct recomputation and train+test=total, the neighbourhood statistics of Radius/KNearest bandits recomputed from scratch (distances of the rows stored at that time to the one test row; numerically ambiguous rows skipped and counted), the default evaluation recomputed independently equals the reported one per batch and in total, counts sum to |test|, min<=mean<=max.",
          "Apart from the chunk-budget knob and worker partitions/schedules this property is a function of the input: most decisive variation is generated input; claimed as exploration, no more."),
- "C17": ("fault_enumeration", "enumeration of (47 policy combinations) x (89-entry catalogue of invalid calls, training shape errors and valid calls) x (5 history positions); replica that never saw the fault; continuation equality without re-synchronisation",
-         "Quick covers the full cross product once: for every policy-combination class, every catalogue entry (invalid arguments of fit/partial_fit/predict/predict_expectations/add_arm/remove_arm/warm_start/__init__, shape errors inside training) and every history-position class, the call is made on the primary; if it raises, arm list, parameter view and ALL random-stream positions must equal a deep copy that never saw it and a continuation (always a further partial_fit and queries) must return exactly the same; thorough adds random histories around the fault.",
+ "C17": ("fault_enumeration", "enumeration of (47 policy combinations) x (90-entry catalogue of invalid calls, training shape errors and valid calls) x (5 history positions); replica that never saw the fault; continuation equality without re-synchronisation",
+         "Quick covers the full cross product once: for every policy-combination class, every catalogue entry (invalid arguments of fit/partial_fit/predict/predict_expectations/add_arm/remove_arm/warm_start/__init__, shape errors inside training) and every history-position class, the call is made on the primary; if it raises, arm list, parameter view and ALL random-stream positions must equal a deep copy that never saw it and a continuation (always a further partial_fit and queries) must return exactly the same; in 30% of the runs the rejected call itself executes with n_jobs>1 under a drawn worker schedule, and half of the contextual continuations end with one context handed over as a pandas Series; thorough adds random histories around the fault.",
          "A catalogue call that does not raise makes no claim (counted as 'not rejected'). Shape errors surfacing from prediction are not in the catalogue (the property lists training shape errors only)."),
- "C18": ("exploration", "byte-level snapshots of all caller-owned objects around every call; caller mutations of the arms list and reuse of policy tuples injected; replica fed other container types",
-         "Snapshots (bytes, dtype, strides, pickles) of data containers, the arms list, policy tuples and their inner dicts/lists, and the arm-feature dict are compared around every call incl. __init__; the caller appends to/reverses/clears its arms list and reuses its policy tuples for another bandit at drawn points; the replica gets each operation's data as ndarray C/F/transposed/non-contiguous, int/float, Series, DataFrame, single-row/single-feature Series and must equal the list-fed primary exactly.",
+ "C18": ("exploration", "byte-level snapshots of all caller-owned objects around every call; caller mutations of the arms list, reuse of policy tuples and in-place re-use of the caller's data buffers injected; replica fed other container types and dtypes",
+         "Snapshots (bytes, dtype, strides, pickles) of data containers, the arms list, policy tuples and their inner dicts/lists, and the arm-feature dict are compared around every call incl. __init__; the caller appends to/reverses/clears its arms list and reuses its policy tuples for another bandit at drawn points; the replica gets each operation's data as ndarray C/F/transposed/non-contiguous, int/float, float32, int8/int16/uint8 (values that fit while products/sums do not; 300-700 rewards in one byte array), Series, DataFrame (also with a non-default index), single-row/single-feature Series, or - in 15% of the runs - in ONE pre-allocated container per argument that the caller overwrites in place for the next call, and must equal the list-fed primary exactly.",
          "The container-type half is generated-input checking (no schedule or fault in it). Series as query contexts of a context-free bandit are not generated (contexts are ignored there; outside the stated quantifier)."),
  "C19": ("exploration", "F-RESTART at every history position class: deepcopy, pickle protocols 2-5, and restore in another interpreter process; copy runs ahead, original must follow and stay equal to a never-copied third bandit",
          "At restart points placed before fit, after training, after arm changes/warm start and between queries and partial_fit, the bandit is deep-copied / pickled (protocols 2-5) / restored in another interpreter with another hash seed; the copy runs the next operations first, then the original must return exactly the same and stay equal to a third bandit that was never copied; generator aliasing must survive the copy.",
